@@ -193,6 +193,38 @@ func c02PlainInjection(c *Ctx) {
 // C05: no data message is ever accepted twice
 func genC05(c *Ctx) {
 	c.Rep.Rule = "every data message recorded in a session is re-delivered later: immediately, after further traffic and rotations, out of order, and after End + a new key exchange; compared with the abstract machine; oracle: a replay never yields plaintext nor SMP/security/key events"
+	// directed: a burst in one direction of which some messages are lost or overtaken (gaps in the counters under one key
+	// pair), then every message that did arrive is delivered again - at once, and after the rest of the burst
+	for _, pol := range []int{polV3, polV2} {
+		for variant := 0; variant < 3; variant++ {
+			s, pols, ok := sessionWithTraffic(c, pol, variant)
+			if !ok {
+				continue
+			}
+			var idxs []int
+			for k := 0; k < 6; k++ {
+				s.Send(1, []byte(fmt.Sprintf("burst-%d", k)))
+				idxs = append(idxs, len(s.ps[1].outs)-1)
+			}
+			s.ps[1].pending = len(s.ps[1].outs)
+			order := [][]int{{0, 2, 3, 5}, {1, 0, 4, 5}, {2, 5}}[variant] // which of the six arrive, in which order
+			var arrived []int
+			for _, k := range order {
+				plain, _ := s.Deliver(1, idxs[k], 2, MNone)
+				if plain != nil {
+					arrived = append(arrived, idxs[k])
+				}
+				for _, r := range arrived {
+					if p2, _ := s.Deliver(1, r, 2, MNone); p2 != nil {
+						c.Violate("replay-accepted", "after-gap", fmt.Sprintf("replayed message delivered %q again (burst with lost / overtaken messages)", p2), s.trace)
+					}
+					c.Count("replay:after-gap")
+				}
+			}
+			s.Pump(1, 2, 10)
+			c.AddScenario(s, pols)
+		}
+	}
 	n := 5
 	if c.Thorough() {
 		n = 100
